@@ -112,6 +112,17 @@ func vObsList(out *vOut, head string, l []string) {
 }
 
 // vLabels: every component instance that exists after a successful New, sorted.
+func vAddLabel(l []string, x string) []string {
+	for _, y := range l {
+		if y == x {
+			return l
+		}
+	}
+	l = append(l, x)
+	sort.Strings(l)
+	return l
+}
+
 func vLabels(w *vWorld) []string {
 	var l []string
 	for k := range w.creates {
@@ -158,201 +169,227 @@ func TestVerifC10Lifecycle(t *testing.T) {
 		vGenShared(rnd, &cfg)
 		vGenSharedMore(rnd, &cfg)
 
-		out.Linef("case %d", c)
-		vEmitCfg(out, cfg)
+		// SEVERAL service lifetimes in one process over the same factories and one persistent sharedcomponent.Map (as the otlp
+		// receiver's factory keeps it): for configurations with a component built on sharedcomponent, half of the cases build,
+		// start and stop 2 or 3 services one after the other. Each lifetime is its own case block (same index, lt=k): the model
+		// starts every lifetime from a fresh state whatever happened before (C10_lifetimes_independent).
+		nLife := 1
+		if (cfg.shared != 0 || cfg.sharedExp != 0 || cfg.sharedConn != 0) && rnd.IntN(2) == 0 {
+			nLife = 2 + rnd.IntN(2)
+		}
+		var prev *vWorld
+		for lt := 1; lt <= nLife; lt++ {
+			func() {
+				out.Linef("case %d lt=%d", c, lt)
+				vEmitCfg(out, cfg)
 
-		usesConn, extDep := false, false
-		for _, p := range cfg.pipes {
-			for _, l := range [][]int{p.recv, p.exps} {
-				for _, x := range l {
-					for _, cc := range cfg.conns {
-						usesConn = usesConn || cc.id == x
+				usesConn, extDep := false, false
+				for _, p := range cfg.pipes {
+					for _, l := range [][]int{p.recv, p.exps} {
+						for _, x := range l {
+							for _, cc := range cfg.conns {
+								usesConn = usesConn || cc.id == x
+							}
+						}
 					}
 				}
-			}
-		}
-		for _, e := range cfg.exts {
-			extDep = extDep || len(e.deps) > 0
-		}
+				for _, e := range cfg.exts {
+					extDep = extDep || len(e.deps) > 0
+				}
 
-		w := newVWorld()
-		// 3%: the factory of one exporter the configuration uses fails inside service.New (graph.Build): New must return the error
-		// and nothing may be started
-		if c >= ncorpus && rnd.IntN(33) == 0 {
-			p := cfg.pipes[rnd.IntN(len(cfg.pipes))]
-			var cand []string
-			for _, x := range p.exps {
-				isConn := false
-				for _, cc := range cfg.conns {
-					isConn = isConn || cc.id == x
+				w := newVWorld()
+				if prev != nil {
+					w = prev.nextLifetime()
 				}
-				if !isConn {
-					cand = append(cand, fmt.Sprintf("e%d:%d", x, p.sig))
+				prev = w
+				// 3%: the factory of one exporter the configuration uses fails inside service.New (graph.Build): New must return the error
+				// and nothing may be started
+				if c >= ncorpus && rnd.IntN(33) == 0 {
+					p := cfg.pipes[rnd.IntN(len(cfg.pipes))]
+					var cand []string
+					for _, x := range p.exps {
+						isConn := false
+						for _, cc := range cfg.conns {
+							isConn = isConn || cc.id == x
+						}
+						if !isConn {
+							cand = append(cand, fmt.Sprintf("e%d:%d", x, p.sig))
+						}
+					}
+					if len(cand) > 0 {
+						k := cand[rnd.IntN(len(cand))]
+						w.failCreate[k] = true
+						out.Linef("op failcreate %s", k)
+					}
 				}
-			}
-			if len(cand) > 0 {
-				k := cand[rnd.IntN(len(cand))]
-				w.failCreate[k] = true
-				out.Linef("op failcreate %s", k)
-			}
-		}
-		set, conf := vSettings(w, cfg)
-		srv, err := vNew(set, conf)
-		if err != nil {
-			cls := vErrClass(err)
-			out.Linef("obs new err=%s", cls)
-			if len(w.log) > 0 {
-				out.Linef("viol sig=C10/reject/component-started-though-build-failed %s", vHex(vLogString(w.log)))
-			}
-			if usesConn || extDep || (cfg.shared != 0 || cfg.sharedExp != 0 || cfg.sharedConn != 0) {
-				out.Linef("nt")
-			}
-			out.Linef("stat rejected_%s 1", strings.SplitN(cls, ":", 2)[0])
-			if cfg.shared != 0 || cfg.sharedExp != 0 || cfg.sharedConn != 0 {
-				out.Linef("stat shared 1")
-			}
-			out.Linef("stat exts %d", len(cfg.exts))
-			out.Linef("stat pipelines %d", len(cfg.pipes))
-			out.Linef("end")
-			out.Flush()
-			continue
-		}
-		out.Linef("obs new ok")
-		if len(w.log) > 0 { // nothing may run before Start
-			out.Linef("viol sig=C10/new/lifecycle-call-during-construction %s", vHex(vLogString(w.log)))
-		}
+				set, conf := vSettings(w, cfg)
+				srv, err := vNew(set, conf)
+				if err != nil {
+					cls := vErrClass(err)
+					out.Linef("obs new err=%s", cls)
+					if len(w.log) > 0 {
+						out.Linef("viol sig=C10/reject/component-started-though-build-failed %s", vHex(vLogString(w.log)))
+					}
+					if usesConn || extDep || (cfg.shared != 0 || cfg.sharedExp != 0 || cfg.sharedConn != 0) {
+						out.Linef("nt")
+					}
+					out.Linef("stat rejected_%s 1", strings.SplitN(cls, ":", 2)[0])
+					if cfg.shared != 0 || cfg.sharedExp != 0 || cfg.sharedConn != 0 {
+						out.Linef("stat shared 1")
+					}
+					out.Linef("stat exts %d", len(cfg.exts))
+					out.Linef("stat pipelines %d", len(cfg.pipes))
+					out.Linef("end")
+					out.Flush()
+					return
+				}
+				out.Linef("obs new ok")
+				if len(w.log) > 0 { // nothing may run before Start
+					out.Linef("viol sig=C10/new/lifecycle-call-during-construction %s", vHex(vLogString(w.log)))
+				}
 
-		labels := vLabels(w)
-		pickLabels := func() []string {
-			if rnd.IntN(10) >= 3 || len(labels) == 0 || cfg.noFail {
-				return nil
-			}
-			var o []string
-			for k := 1 + rnd.IntN(2); k > 0; k-- {
-				l := labels[rnd.IntN(len(labels))]
-				dup := false
-				for _, x := range o {
-					dup = dup || x == l
+				labels := vLabels(w)
+				pickLabels := func() []string {
+					if rnd.IntN(10) >= 3 || len(labels) == 0 || cfg.noFail {
+						return nil
+					}
+					var o []string
+					for k := 1 + rnd.IntN(2); k > 0; k-- {
+						l := labels[rnd.IntN(len(labels))]
+						dup := false
+						for _, x := range o {
+							dup = dup || x == l
+						}
+						if !dup {
+							o = append(o, l)
+						}
+					}
+					sort.Strings(o)
+					return o
 				}
-				if !dup {
-					o = append(o, l)
+				fstart := pickLabels()
+				fstop := pickLabels()
+				if lt < nLife && len(w.inners) > 0 { // earlier lifetimes: the shared inner component's Shutdown (50%) / Start (15%) fails
+					in := w.inners[rnd.IntN(len(w.inners))]
+					switch k := rnd.IntN(20); {
+					case k < 10:
+						fstop = vAddLabel(fstop, in)
+					case k < 13:
+						fstart = vAddLabel(fstart, in)
+					}
 				}
-			}
-			sort.Strings(o)
-			return o
-		}
-		fstart := pickLabels()
-		fstop := pickLabels()
-		for _, l := range fstart {
-			out.Linef("op failstart %s", l)
-			w.failStart[l] = true
-		}
-		for _, l := range fstop {
-			out.Linef("op failstop %s", l)
-			w.failStop[l] = true
-		}
+				for _, l := range fstart {
+					out.Linef("op failstart %s", l)
+					w.failStart[l] = true
+				}
+				for _, l := range fstop {
+					out.Linef("op failstop %s", l)
+					w.failStop[l] = true
+				}
 
-		// hooks of Service.Start: NotifyConfig (all watchers are called, any error aborts) and PipelineWatcher.Ready
-		var fnotify, fready []string
-		if len(w.exts) > 0 && rnd.IntN(10) == 0 {
-			fnotify = append(fnotify, w.exts[rnd.IntN(len(w.exts))])
-		}
-		if len(w.exts) > 0 && rnd.IntN(10) == 0 {
-			fready = append(fready, w.exts[rnd.IntN(len(w.exts))])
-		}
-		for _, l := range fnotify {
-			out.Linef("op failnotify %s", l)
-			w.failNotify[l] = true
-		}
-		for _, l := range fready {
-			out.Linef("op failready %s", l)
-			w.failReady[l] = true
-		}
-		out.Linef("op run")
-		// otelcol/collector.go: setupConfigurationComponents calls Start and, when it fails, shutdown();
-		// otherwise shutdown() runs when the collector exits. Either way Shutdown is called exactly once.
-		startErr, startPanic := vCall(srv.Start)
-		var stopErr error
-		var stopPanic string
-		if startErr != nil {
-			stopErr, stopPanic = vCall(srv.Shutdown)
-		} else {
-			stopErr, stopPanic = vCall(srv.Shutdown)
-		}
-
-		var stops, stopFails, startLog, stopLog []string
-		for _, e := range w.log {
-			res := "ok"
-			if e.fail {
-				res = "fail"
-			}
-			out.Linef("tr ev %s %s %s", e.kind, e.label, res)
-			switch e.kind {
-			case "start", "istart":
-				startLog = append(startLog, e.label+"="+res)
-			case "notify", "ready":
-				startLog = append(startLog, e.kind+"."+e.label+"="+res)
-			case "stop", "istop":
-				stopLog = append(stopLog, e.label+"="+res)
-			}
-			if e.kind == "stop" || e.kind == "istop" {
-				stops = append(stops, e.label)
-				if e.fail {
-					stopFails = append(stopFails, e.label)
+				// hooks of Service.Start: NotifyConfig (all watchers are called, any error aborts) and PipelineWatcher.Ready
+				var fnotify, fready []string
+				if len(w.exts) > 0 && rnd.IntN(10) == 0 {
+					fnotify = append(fnotify, w.exts[rnd.IntN(len(w.exts))])
 				}
-			}
+				if len(w.exts) > 0 && rnd.IntN(10) == 0 {
+					fready = append(fready, w.exts[rnd.IntN(len(w.exts))])
+				}
+				for _, l := range fnotify {
+					out.Linef("op failnotify %s", l)
+					w.failNotify[l] = true
+				}
+				for _, l := range fready {
+					out.Linef("op failready %s", l)
+					w.failReady[l] = true
+				}
+				out.Linef("op run")
+				// otelcol/collector.go: setupConfigurationComponents calls Start and, when it fails, shutdown();
+				// otherwise shutdown() runs when the collector exits. Either way Shutdown is called exactly once.
+				startErr, startPanic := vCall(srv.Start)
+				var stopErr error
+				var stopPanic string
+				if startErr != nil {
+					stopErr, stopPanic = vCall(srv.Shutdown)
+				} else {
+					stopErr, stopPanic = vCall(srv.Shutdown)
+				}
+
+				var stops, stopFails, startLog, stopLog []string
+				for _, e := range w.log {
+					res := "ok"
+					if e.fail {
+						res = "fail"
+					}
+					out.Linef("tr ev %s %s %s", e.kind, e.label, res)
+					switch e.kind {
+					case "start", "istart":
+						startLog = append(startLog, e.label+"="+res)
+					case "notify", "ready":
+						startLog = append(startLog, e.kind+"."+e.label+"="+res)
+					case "stop", "istop":
+						stopLog = append(stopLog, e.label+"="+res)
+					}
+					if e.kind == "stop" || e.kind == "istop" {
+						stops = append(stops, e.label)
+						if e.fail {
+							stopFails = append(stopFails, e.label)
+						}
+					}
+				}
+				// instances that were created but never started and never shut down (extensions.New keeps one instance per id)
+				orphans := 0
+				for _, e := range w.extInst {
+					if e.nStart == 0 && e.nStop == 0 {
+						orphans++
+						out.Linef("tr orphan %s", e.label)
+					}
+					if e.nStart > 1 || e.nStop > 1 {
+						out.Linef("viol sig=C10/extensions/one-instance-started-or-stopped-more-than-once %s starts=%d stops=%d", e.label, e.nStart, e.nStop)
+					}
+				}
+				if orphans > 0 {
+					out.Linef("stat ext_instances_created_and_dropped %d", orphans)
+				}
+				if startPanic != "" {
+					out.Linef("viol sig=C10/panic/start %s", vHex(startPanic))
+				}
+				if stopPanic != "" {
+					out.Linef("viol sig=C10/panic/shutdown %s", vHex(stopPanic))
+				}
+				if startErr != nil {
+					out.Linef("obs start fail")
+				} else {
+					out.Linef("obs start ok")
+				}
+				vObsList(out, "stops", stops)
+				vObsList(out, "stoperr", stopFails)
+				if stopErr != nil {
+					out.Linef("obs shutdown err")
+				} else {
+					out.Linef("obs shutdown ok")
+				}
+				// the complete logs, in order: diffed EXACTLY against the model's Service.Start / Service.Shutdown run with the
+				// topological orders reconstructed from this very log (the driver checks them with isTopoB)
+				out.Linef("obs startlog %d %s", len(startLog), strings.Join(startLog, " "))
+				out.Linef("obs stoplog %d %s", len(stopLog), strings.Join(stopLog, " "))
+				if usesConn || extDep || len(fstart)+len(fstop)+len(fnotify)+len(fready) > 0 || (cfg.shared != 0 || cfg.sharedExp != 0 || cfg.sharedConn != 0) {
+					out.Linef("nt")
+				}
+				out.Linef("stat built 1")
+				if startErr != nil {
+					out.Linef("stat startfail 1")
+				}
+				out.Linef("stat stopfail %d", len(stopFails))
+				if cfg.shared != 0 || cfg.sharedExp != 0 || cfg.sharedConn != 0 {
+					out.Linef("stat shared 1")
+				}
+				out.Linef("stat exts %d", len(cfg.exts))
+				out.Linef("stat pipelines %d", len(cfg.pipes))
+				out.Linef("stat comps %d", len(labels))
+				out.Linef("end")
+				out.Flush()
+			}()
 		}
-		// instances that were created but never started and never shut down (extensions.New keeps one instance per id)
-		orphans := 0
-		for _, e := range w.extInst {
-			if e.nStart == 0 && e.nStop == 0 {
-				orphans++
-				out.Linef("tr orphan %s", e.label)
-			}
-			if e.nStart > 1 || e.nStop > 1 {
-				out.Linef("viol sig=C10/extensions/one-instance-started-or-stopped-more-than-once %s starts=%d stops=%d", e.label, e.nStart, e.nStop)
-			}
-		}
-		if orphans > 0 {
-			out.Linef("stat ext_instances_created_and_dropped %d", orphans)
-		}
-		if startPanic != "" {
-			out.Linef("viol sig=C10/panic/start %s", vHex(startPanic))
-		}
-		if stopPanic != "" {
-			out.Linef("viol sig=C10/panic/shutdown %s", vHex(stopPanic))
-		}
-		if startErr != nil {
-			out.Linef("obs start fail")
-		} else {
-			out.Linef("obs start ok")
-		}
-		vObsList(out, "stops", stops)
-		vObsList(out, "stoperr", stopFails)
-		if stopErr != nil {
-			out.Linef("obs shutdown err")
-		} else {
-			out.Linef("obs shutdown ok")
-		}
-		// the complete logs, in order: diffed EXACTLY against the model's Service.Start / Service.Shutdown run with the
-		// topological orders reconstructed from this very log (the driver checks them with isTopoB)
-		out.Linef("obs startlog %d %s", len(startLog), strings.Join(startLog, " "))
-		out.Linef("obs stoplog %d %s", len(stopLog), strings.Join(stopLog, " "))
-		if usesConn || extDep || len(fstart)+len(fstop)+len(fnotify)+len(fready) > 0 || (cfg.shared != 0 || cfg.sharedExp != 0 || cfg.sharedConn != 0) {
-			out.Linef("nt")
-		}
-		out.Linef("stat built 1")
-		if startErr != nil {
-			out.Linef("stat startfail 1")
-		}
-		out.Linef("stat stopfail %d", len(stopFails))
-		if cfg.shared != 0 || cfg.sharedExp != 0 || cfg.sharedConn != 0 {
-			out.Linef("stat shared 1")
-		}
-		out.Linef("stat exts %d", len(cfg.exts))
-		out.Linef("stat pipelines %d", len(cfg.pipes))
-		out.Linef("stat comps %d", len(labels))
-		out.Linef("end")
-		out.Flush()
 	}
 }
